@@ -304,6 +304,9 @@ pub struct ServerSim {
     pub kill: Option<EventFd>,
     /// the harness' copy of a kill switch that was replaced (kept open, never signalled)
     pub kill_extra: Option<EventFd>,
+    /// connections (stub ids) that were releasable when the previous successful requests() call
+    /// ended - client gone, hang-up seen by the server, nothing owed - and yet still held
+    pub stale_conns: Vec<usize>,
     pub epfd: i32,
     pub case_limit: usize,
     pub clients: BTreeMap<usize, Client>,
@@ -506,6 +509,7 @@ impl ServerSim {
             server: Some(server),
             kill,
             kill_extra,
+            stale_conns: Vec::new(),
             epfd,
             case_limit: case.limit.unwrap_or(51200),
             clients: BTreeMap::new(),
@@ -1160,6 +1164,13 @@ impl ServerSim {
         let r = self.account_log(&log, st);
         self.in_flush = false;
         r?;
+        // flushing also releases what has become releasable (the sweep at its end): whatever is
+        // still held although releasable now must not justify a refusal later
+        for c in self.releasable_but_held() {
+            if !self.stale_conns.contains(&c) {
+                self.stale_conns.push(c);
+            }
+        }
         if self.flags.well_behaved {
             // queued responses that fit the socket buffer are delivered without polling
             for (id, exp_len, free) in before {
@@ -1377,11 +1388,46 @@ impl ServerSim {
                         format!("client {} was refused although only {} connection(s) were held by the server", cid, before),
                     ));
                 }
+                // ... and connections that were already releasable when the PREVIOUS call ended (client
+                // gone, hang-up seen, nothing owed) do not justify a refusal: capacity was to be regained
+                let stale = self
+                    .stale_conns
+                    .iter()
+                    .filter(|c| {
+                        world::with(|w| w.conns[**c].server_fd.is_some())
+                            || log.iter().any(|e| matches!(e, LogEntry::Close { conn: Some(x), .. } if x == *c))
+                    })
+                    .count();
+                if self.flags.capacity && stale > 0 && before_or_at_start - stale.min(before_or_at_start) < MAX_CONN {
+                    return Err(self.v(
+                        "refused-while-releasable-connection-held",
+                        format!(
+                            "client {} was refused: {} connection(s) were held, but {} of them had been releasable since the previous requests() call ended (client gone, hang-up seen by the server, nothing owed)",
+                            cid, before_or_at_start, stale
+                        ),
+                    ));
+                }
             } else if before >= MAX_CONN {
                 return Err(self.v("served-above-capacity", format!("client {} was accepted as connection number {}", cid, before + 1)));
             }
         }
         Ok(progress)
+    }
+
+    /// connections whose client is gone, whose hang-up the server has seen, for which nothing is owed,
+    /// and which the server process still holds
+    fn releasable_but_held(&self) -> Vec<usize> {
+        self.clients
+            .iter()
+            .filter(|(id, cl)| {
+                cl.closed
+                    && cl.server_saw_hangup
+                    && cl.accept == Accept::Served
+                    && !self.outstanding.iter().any(|o| o.1 == **id)
+                    && world::with(|w| w.conns[cl.conn].server_fd.is_some() && w.conns[cl.conn].extra_refs == 0)
+            })
+            .map(|(_, cl)| cl.conn)
+            .collect()
     }
 
     pub fn poll(&mut self, key: u64, eintr: bool, st: &mut Stats) -> Result<(), Violation> {
@@ -1544,6 +1590,11 @@ impl ServerSim {
                     ));
                 }
             }
+        }
+        // connections that are releasable now, at the end of a successful call, and still held
+        self.stale_conns = self.releasable_but_held();
+        if !self.stale_conns.is_empty() {
+            st.probe("releasable_connection_still_held_at_end_of_call");
         }
         if !progress && nreq == 0 && !eintr {
             self.idle_polls += 1;
